@@ -345,6 +345,13 @@ func genC03(t *rapid.T, tier Tier) C03Case {
 			}
 		}
 	}
+	boundaryCap := false
+	if c.CapArg > 0 && rapid.IntRange(0, 19).Draw(t, "boundarycap?") == 0 {
+		// capacities around the powers of two where fixed-size thinking breaks (one byte, 4096, two bytes ...):
+		// the bookkeeping must say k, and the k-th value must still be stored
+		c.CapArg = rapid.SampledFrom([]int{255, 256, 257, 1023, 1024, 4095, 4096, 4097, 5000, 65535, 65536, 65537, 1 << 20}).Draw(t, "boundarycap")
+		boundaryCap = true
+	}
 	c.Policy = rapid.IntRange(0, 3).Draw(t, "policy?") == 0
 	c.Amb = drawAmbient(t, false)
 	c.NoNest = rapid.IntRange(0, 3).Draw(t, "nonest") == 0
@@ -353,6 +360,15 @@ func genC03(t *rapid.T, tier Tier) C03Case {
 	k := c.CapArg
 	if k < 1 {
 		k = 4
+	}
+	if boundaryCap {
+		// one fill to the brim (for the sizes that can be filled in reasonable time), then a few small steps
+		if k <= 5000 {
+			c.Ops = append(c.Ops, C03Op{Op: "fill", N: 0, A: 2})
+		}
+		n = rapid.IntRange(1, 4).Draw(t, "nops-boundary")
+		ops = []string{"push", "insert", "pop", "marshal", "transfer"}
+		k = 3
 	}
 	for i := 0; i < n; i++ {
 		o := C03Op{Op: rapid.SampledFrom(ops).Draw(t, "op")}
